@@ -12,7 +12,8 @@ import json
 from . import core
 
 H = (1.0, 0.5, 0.25)          # resolution per axis (Caching.tla: Spacing / 4)
-ORIGINS = {"origin": (0.0, 0.0, 0.0), "offset": (-3.75, 2.5, 100.0), "fine": (8.0, 8.0, 4.0)}      # Caching.tla: Origins / 4
+ORIGINS = {"origin": (0.0, 0.0, 0.0), "offset": (-3.75, 2.5, 100.0), "fine": (8.0, 8.0, 4.0), "uneven": (1.0, -2.0, 0.5)}      # Caching.tla: Origins / 4
+EXTRA = {"uneven": (0, 1, 3)}        # Caching.tla: ExtraCells (cells per axis beyond n)
 SPACING = {"fine": (0.005, 0.005, 0.005)}       # the "fine" lattice: 5 mm cells eight metres from the origin (a large tokamak); others use H
 POLYS = [(2, -3, 1, 1), (5, 2, 0, 0), (1, 0, -2, 0), (-4, 1, 3, -1)]
 
@@ -40,7 +41,8 @@ def make(dim, n, poly, nbe, fb, place="origin"):
     f = F(poly, dim, place)
     X0 = ORIGINS[place]
     h = SPACING.get(place, H)
-    area = tuple(x for k in range(dim) for x in (X0[k], X0[k] + n * h[k]))
+    ex = EXTRA.get(place, (0, 0, 0))
+    area = tuple(x for k in range(dim) for x in (X0[k], X0[k] + (n + ex[k]) * h[k]))
     res = h[0] if dim == 1 else tuple(h[k] for k in range(dim))
     cls = {1: Caching1D, 2: Caching2D, 3: Caching3D}[dim]
     return cls(f, area, res, no_boundary_error=nbe, function_boundaries=fb), f
@@ -102,13 +104,14 @@ def identities(dim, n):
     """node exactness and multilinear exactness on fresh instances (whole area sweep)."""
     out = []
     lin = POLYS[1]
-    for place, fb in (("origin", None), ("origin", (-50.0, 300.0)), ("offset", None), ("fine", None)):
+    for place, fb in (("origin", None), ("origin", (-50.0, 300.0)), ("offset", None), ("fine", None), ("uneven", None), ("uneven", (-50.0, 300.0))):
         X0 = ORIGINS[place]
         H = SPACING.get(place, globals()["H"])
+        ex = EXTRA.get(place, (0, 0, 0))
         at = "@" + place if place != "origin" else ""
         cache, f = make(dim, n, lin, False, fb, place)
         ref = F(lin, dim, place)
-        pts = list(itertools.product(*[[X0[ax] + (0.37 + k) * H[ax] for k in range(n)] + [X0[ax] + (n - 0.01) * H[ax], X0[ax] + 0.02 * H[ax]] for ax in range(dim)]))
+        pts = list(itertools.product(*[[X0[ax] + (0.37 + k) * H[ax] for k in range(n + ex[ax])] + [X0[ax] + (n + ex[ax] - 0.01) * H[ax], X0[ax] + 0.02 * H[ax]] for ax in range(dim)]))
         # exactness up to rounding: 1e-9 on the lattice at the origin, 1e-7 on the displaced ones (the nodes are shifted by 1e-7)
         tol = 1e-9 if place == "origin" else 1e-7
         for pt in pts[:400]:
@@ -120,7 +123,7 @@ def identities(dim, n):
         cache, f = make(dim, n, cub, False, fb, place)
         ref = F(cub, dim, place)
         cache(*[X0[ax] + (n / 2.0 + 0.3) * H[ax] for ax in range(dim)])
-        nodes = [c for c in f.calls if all(X0[ax] <= x <= X0[ax] + n * H[ax] for ax, x in enumerate(c))]
+        nodes = [c for c in f.calls if all(X0[ax] <= x <= X0[ax] + (n + ex[ax]) * H[ax] for ax, x in enumerate(c))]
         for nd in nodes[:30]:
             v, w = cache(*nd), ref(*nd)
             if abs(v - w) > tol * max(1.0, abs(w)):
@@ -134,7 +137,7 @@ def identities(dim, n):
         def smooth(*a):
             x = a + (0.0, 0.0)
             return math.sin(x[0]) * math.cos(0.7 * x[1]) + 0.3 * x[2] * x[2]
-        area = tuple(x for k in range(dim) for x in (X0[k], X0[k] + n * H[k]))
+        area = tuple(x for k in range(dim) for x in (X0[k], X0[k] + (n + ex[k]) * H[k]))
         cs = {1: Caching1D, 2: Caching2D, 3: Caching3D}[dim](smooth, area, H[0] if dim == 1 else tuple(H[:dim]))
         bound = 3.0 * max(H[:dim]) ** 2 + 1e-9
         for pt in pts[:200]:
@@ -178,6 +181,10 @@ def run(v):
         res = core.run_tlc("Caching", CFG.format(dim=dim, n=n, depth=depth, poly=poly), workers=1, seed=v.seed, tag=f"C14-{dim}d", timeout=3000)
         core.tlc_must_pass(res, f"Caching {dim}D")
         v.add_tlc(res, f"Caching/dim{dim}-N{n}-depth{depth}-poly{poly}")
+        tab = [r for r in res.records if "origins" in r][0]
+        if {k: tuple(x / 4.0 for x in o) for k, o in tab["origins"].items()} != {k: o for k, o in ORIGINS.items() if k != "fine"} or \
+                {k: tuple(x) for k, x in tab["extracells"].items() if any(x)} != EXTRA or tuple(x / 4.0 for x in tab["spacing"]) != H:
+            raise core.MachineryError("placement tables of Caching.tla and mbt/c14.py differ")
         edges = [r for r in res.records if "h" in r]
         full = [r for r in edges if len(r["h"]) == depth] or edges
         if not any(e["op"] == "outside" for r in full for e in r["h"]) or not any(e["op"] == "eval" and not e["asks"] for r in full for e in r["h"]):
